@@ -37,6 +37,17 @@ type Case struct {
 	// Verbatim: Query compiled with parameter Name bound to Value must equal the
 	// output for a marker value with the marker replaced by Value.
 	Verbatim *Verbatim `json:"verbatim,omitempty"`
+	ByHand   *ByHand   `json:"byhand,omitempty"`
+}
+
+// ByHand: Query has %s at its use sites and %a at positions where the same
+// name stands as an alias, quoted, qualified or as a function name. Compiled
+// with the name bound to a number, it must equal the query with the number
+// written at the use sites by hand and no binding.
+type ByHand struct {
+	Query  string `json:"query"`
+	Name   string `json:"name"`
+	ViaLet bool   `json:"via_let"`
 }
 
 type Verbatim struct {
@@ -345,6 +356,31 @@ func generate(w *mon.W) {
 			})
 		}
 	}
+	// the name also stands as an alias, quoted, qualified or as a function name
+	// in an operator before (and between) its uses: the uses still denote the
+	// value, the other occurrences stay names
+	{
+		names := []string{"extend %a = a + 1", "project %a = a, b, k", "summarize %a = count() by k", "summarize c = count() by %a = k", "as %a", "where `%a` > 0", "extend z = `%a`",
+			"join (U | project %a = k, k) on k", "render pie with (%a = 1)", "where %a.x == 1", "where x.%a == 1", "where %a(1) == 2", "sort by `%a`", "extend %a = %s", "project %a = %s + 1, b",
+			"join (%a) on k", "extend `%a` = 1 | extend y = `%a`"}
+		uses := []string{"where b > %s", "take %s", "extend z = %s + 1", "project z = %s, b", "top %s by b", "where f(%s) == 1", "summarize s = sum(%s) by k", "where b in (%s, 1)", "where -%s < 0",
+			"join (U) on $left.a == %s", "extend y = %s | where y == %s"}
+		for ni, a := range names {
+			for ui, u := range uses {
+				for _, name := range []string{"n", "lim"} {
+					for _, viaLet := range []bool{false, true} {
+						for shape, q := range []string{"T | " + a + " | " + u, "T | " + u + " | " + a + " | " + u} {
+							if strings.HasPrefix(a, "render") && shape == 1 {
+								continue
+							}
+							c := &Case{ByHand: &ByHand{Query: q, Name: name, ViaLet: viaLet}}
+							w.Do(fmt.Sprint("byhand|", ni, "|", ui, "|", name, "|", viaLet, "|", shape), func(r *mon.R) { Check(c, r) })
+						}
+					}
+				}
+			}
+		}
+	}
 	// parameters are inserted verbatim: whatever the text (empty, blank, several
 	// tokens, quotes), the output is the output for a marker with the marker
 	// replaced by that text
@@ -430,6 +466,10 @@ func Check(c *Case, r *mon.R) {
 	r.Case = c
 	if c.NoSubst != nil {
 		checkNoSubst(c.NoSubst, r)
+		return
+	}
+	if c.ByHand != nil {
+		checkByHand(c.ByHand, r)
 		return
 	}
 	if c.Verbatim != nil {
@@ -595,6 +635,35 @@ func checkNoSubst(n *NoSubst, r *mon.R) {
 	}
 	r.Nontrivial()
 	r.Count("non_substitution_checks", 1)
+}
+
+const handValue = "987654321"
+
+func checkByHand(b *ByHand, r *mon.R) {
+	bound := strings.ReplaceAll(strings.ReplaceAll(b.Query, "%s", b.Name), "%a", b.Name)
+	hand := strings.ReplaceAll(strings.ReplaceAll(b.Query, "%s", handValue), "%a", b.Name)
+	params := map[string]string{}
+	if b.ViaLet {
+		bound = "let " + b.Name + " = " + handValue + "; " + bound
+	} else {
+		params[b.Name] = handValue
+	}
+	want, err0, o0 := mon.Compile(hand, map[string]string{})
+	got, err1, o1 := mon.Compile(bound, params)
+	if o0.Anomalous() || o1.Anomalous() {
+		r.Inconclusive("foreign_compile_anomaly")
+		return
+	}
+	if err0 != nil {
+		r.Inconclusive("foreign_compile_error")
+		return
+	}
+	if err1 != nil || got != want {
+		r.Violation("", "a binding does not denote its value at every use, or is substituted where the name is not a use: Compile(%q) with %s bound to %s gives\n  %s %v\n expected (the value written at the use sites by hand, no binding: %q)\n  %s", bound, b.Name, handValue, clip(got, 500), err1, hand, clip(want, 500))
+		return
+	}
+	r.Nontrivial()
+	r.Count("by_hand_checks", 1)
 }
 
 const marker = "\x01zzMARKERzz\x01"
